@@ -290,7 +290,7 @@ func (impl Implementation) Dlaqr23(wantt, wantz bool, n, ktop, kbot, nw int, h [
 			kend := i - 1
 			i = infqr
 			var k int
-			if i == ns-1 || t[(i+1)*ldt+i] == 0 {
+			if i == ns-1 || i+1 >= jw || t[(i+1)*ldt+i] == 0 {
 				k = i + 1
 			} else {
 				k = i + 2
